@@ -393,10 +393,15 @@ carquet_status_t carquet_batch_reader_next(
         }
 
         /* Check if we got a zero-copy view and can use it directly */
+        /* The page is handed out as a whole, so it must hold exactly the rows
+         * of this batch: with a shorter page the column would deliver fewer
+         * rows than its neighbours and stay out of step for the rest of the
+         * row group.  Anything else goes through the copy path, which reads
+         * across page boundaries. */
         bool use_zero_copy = col_reader->page_loaded &&
                              col_reader->decoded_ownership == CARQUET_DATA_VIEW &&
                              col_reader->page_values_read == 0 &&
-                             col_reader->page_num_values <= (int32_t)rows_to_read &&
+                             (int64_t)col_reader->page_num_values == rows_to_read &&
                              max_def == 0;
 
         if (use_zero_copy) {
